@@ -24,18 +24,21 @@ import (
 // under strace in scratch directories below $VERIF_WORK.
 //
 // Tie (c.Op):
-//   script  — `strace -f` of an undisturbed `shfmt -w <target>`, canonicalised (temp names → P1/P2/X,
-//             descriptors → order of opening, restricted to calls on the target, the temp names and
-//             their descriptors; the read-only open/read/close of the target is left out)
-//             = the model's `shfmtW` script.
-//   prefix  — after a kill on entering a system call (`strace -e inject=<syscall>:signal=KILL:when=k`),
-//             the observed state (target old/new, mode, which temp names exist, pending file's bytes and
-//             mode) = the model's state after that many calls of the script.
-//   speckill— the property's own words evaluated by Lean on the observed post-kill state.
+//
+//	script  — `strace -f` of an undisturbed `shfmt -w <target>`, canonicalised (temp names → P1/P2/X,
+//	          descriptors → order of opening, restricted to calls on the target, the temp names and
+//	          their descriptors; the read-only open/read/close of the target is left out)
+//	          = the model's `shfmtW` script.
+//	prefix  — after a kill on entering a system call (`strace -e inject=<syscall>:signal=KILL:when=k`),
+//	          the observed state (target old/new, mode, which temp names exist, pending file's bytes and
+//	          mode) = the model's state after that many calls of the script.
+//	speckill— the property's own words evaluated by Lean on the observed post-kill state.
+//
 // Search (c.Fail): after every kill the target must hold exactly the old or the new bytes, be a regular
-//   file with the original permission bits, and nothing but `.<name><digits>` leftovers may appear;
-//   a completed run must leave no temporary file in either directory; symlink/FIFO/directory targets
-//   must be left untouched.
+//
+//	file with the original permission bits, and nothing but `.<name><digits>` leftovers may appear;
+//	a completed run must leave no temporary file in either directory; symlink/FIFO/directory targets
+//	must be left untouched.
 func init() { register("C35", c35) }
 
 var c35BinOnce sync.Once
@@ -304,14 +307,14 @@ func c35Strings(args string) []string {
 }
 
 type c35Canon struct {
-	env     c35Env
-	base    string
-	sym     map[string]string // absolute temp path → P1 P2 X
-	fds     map[string]int    // real fd → symbolic number
-	nextFd  int
-	ops     []string
-	killedIn string // canonical rendering of the call the tracee died in, if it belongs to the script
-	other   []string // unexpected calls touching the watched names
+	env      c35Env
+	base     string
+	sym      map[string]string // absolute temp path → P1 P2 X
+	fds      map[string]int    // real fd → symbolic number
+	nextFd   int
+	ops      []string
+	killedIn string   // canonical rendering of the call the tracee died in, if it belongs to the script
+	other    []string // unexpected calls touching the watched names
 }
 
 func (k *c35Canon) abs(p string) string {
@@ -531,7 +534,7 @@ type c35Obs struct {
 	content string
 	mode    os.FileMode
 	kind    string
-	names   []string // every name in the target's directory and in $TMPDIR, as dir-tag/name
+	names   []string          // every name in the target's directory and in $TMPDIR, as dir-tag/name
 	temps   map[string]string // dir-tag/name → hex bytes ":" octal mode, for regular files other than the target
 }
 
@@ -580,14 +583,14 @@ func c35Observe(env c35Env) c35Obs {
 
 type c35Line struct{ op, impl string }
 type c35Result struct {
-	ops      []c35Line
-	fails    []Failure
-	tags     []string
-	covered  map[string]bool // script positions at which a kill was delivered
-	runs     int
-	skipped  string
-	nontriv  bool
-	key      string
+	ops     []c35Line
+	fails   []Failure
+	tags    []string
+	covered map[string]bool // script positions at which a kill was delivered
+	runs    int
+	skipped string
+	nontriv bool
+	key     string
 }
 
 func c35KindWord(k string) string { return k }
@@ -699,102 +702,131 @@ func c35RunCase(c *Ctx, cs c35Case) (res c35Result) {
 		injects = keep
 	}
 	scriptLen := len(canon.ops)
-	for i, inj := range injects {
-		env, err := c35Setup(c, cs)
-		if err != nil {
-			env.cleanup()
-			continue
-		}
-		rr := c35Strace(c, env, cs, inj, i+1)
-		res.runs++
-		if rr.timedOut {
-			env.cleanup()
-			res.tags = append(res.tags, "kill-run-timeout")
-			continue
-		}
-		obs := c35Observe(env)
-		kc := c35Canonicalise(env, cs, c35ParseTrace(rr.trace))
-		env.cleanup()
-		pos := len(kc.ops)
-		// the property, on the observed state
-		what := ""
-		switch {
-		case obs.kind != "reg":
-			what = "target is no longer a regular file: " + obs.kind
-		case obs.content != cs.old && obs.content != newBytes:
-			what = fmt.Sprintf("target holds %d bytes that are neither the original nor the formatted bytes (%q…)", len(obs.content), c35Head(obs.content))
-		case obs.mode != cs.perm:
-			what = fmt.Sprintf("target's permission bits are %o, were %o", obs.mode, cs.perm)
-		}
-		var leftovers []string
-		for _, n := range obs.names {
-			b := n[strings.IndexByte(n, '/')+1:]
-			if n == "d/"+cs.name {
-				continue
+	tried := 0
+	for round := 0; round < 3; round++ {
+		if round > 0 {
+			// per-thread counting (and goroutines moving between threads) can leave script positions
+			// without a kill: try again the system calls of the positions still missing
+			if cs.sample {
+				break
 			}
-			if strings.HasPrefix(b, "."+cs.name) && c35DigitsRe.MatchString(strings.TrimPrefix(b, "."+cs.name)) {
-				leftovers = append(leftovers, n)
-				continue
-			}
-			what = "unexpected name after the run: " + n
-		}
-		if !rr.killed {
-			// the injection did not fire (no thread made k such calls): this is a completed run
-			if obs.content != newBytes && what == "" {
-				what = "completed run left the original bytes"
-			}
-			if len(leftovers) > 0 {
-				what = fmt.Sprintf("completed run left temporary files behind: %v", leftovers)
-			}
-			res.covered["completed"] = true
-		}
-		if what != "" {
-			fail(fmt.Sprintf("kill on entering %s (after %d calls of the script, dying in %q): %s", inj, pos, kc.killedIn, what))
-		}
-		res.ops = append(res.ops, c35Line{fmt.Sprintf("speckill %s %s %s %s %o %s", perm, c35Digest(cs.old), c35Digest(newBytes), c35Digest(obs.content), obs.mode, obs.kind), "ok"})
-		if !rr.killed {
-			continue
-		}
-		if len(leftovers) > 0 {
-			res.tags = append(res.tags, "leftover-after-kill")
-		}
-		// the killed prefix must be a prefix of the reference script, and the state the model's
-		if pos > scriptLen || strings.Join(kc.ops, ";") != strings.Join(canon.ops[:pos], ";") {
-			res.ops = append(res.ops, c35Line{fmt.Sprintf("script %s %s %s %s %s", cs.cfg, kindWord, perm, umask, hx(newBytes)), "killed run is not a prefix: " + strings.Join(kc.ops, ";")})
-			continue
-		}
-		res.covered[fmt.Sprintf("%d", pos)] = true
-		// state line
-		tgt := hx(obs.content)
-		if obs.content == cs.old {
-			tgt = "old"
-		} else if obs.content == newBytes {
-			tgt = "new"
-		}
-		symNames := []string{"T"}
-		tempState := "-"
-		for _, n := range leftovers {
-			abs := filepath.Join(env.dir, strings.TrimPrefix(n, "d/"))
-			if strings.HasPrefix(n, "tmp/") {
-				abs = filepath.Join(env.tmpdir, strings.TrimPrefix(n, "tmp/"))
-			}
-			sym := kc.sym[filepath.Clean(abs)]
-			symNames = append(symNames, sym)
-			if sym == "X" {
-				tempState = obs.temps[n]
-				switch {
-				case strings.HasPrefix(tempState, hx(newBytes)+":"):
-					tempState = "new" + tempState[len(hx(newBytes)):]
-				case strings.HasPrefix(tempState, "-:"):
-					tempState = "empty" + tempState[1:]
+			missing := map[string]bool{}
+			for pos, op := range canon.ops {
+				if !res.covered[fmt.Sprintf("%d", pos)] {
+					missing[c35SyscallOf(op)] = true
 				}
 			}
+			if len(missing) == 0 {
+				break
+			}
+			var again []string
+			for _, in := range injects {
+				if missing[in[:strings.IndexByte(in, ':')]] {
+					again = append(again, in)
+				}
+			}
+			injects = again
+			res.tags = append(res.tags, fmt.Sprintf("coverage-retry-round-%d", round))
 		}
-		sort.Slice(symNames, func(i, j int) bool { return c35Rank(symNames[i]) < c35Rank(symNames[j]) })
-		// the state is parametric in the bytes: short stand-ins keep the lines small
-		res.ops = append(res.ops, c35Line{
-			fmt.Sprintf("prefix %s %s %s %s %s %d", cs.cfg, perm, umask, hx("old"), hx("new"), pos),
-			fmt.Sprintf("target=%s mode=%o names=%s temp=%s", tgt, obs.mode, strings.Join(symNames, ","), tempState)})
+		for _, inj := range injects {
+			tried++
+			i := tried
+			env, err := c35Setup(c, cs)
+			if err != nil {
+				env.cleanup()
+				continue
+			}
+			rr := c35Strace(c, env, cs, inj, i+1)
+			res.runs++
+			if rr.timedOut {
+				env.cleanup()
+				res.tags = append(res.tags, "kill-run-timeout")
+				continue
+			}
+			obs := c35Observe(env)
+			kc := c35Canonicalise(env, cs, c35ParseTrace(rr.trace))
+			env.cleanup()
+			pos := len(kc.ops)
+			// the property, on the observed state
+			what := ""
+			switch {
+			case obs.kind != "reg":
+				what = "target is no longer a regular file: " + obs.kind
+			case obs.content != cs.old && obs.content != newBytes:
+				what = fmt.Sprintf("target holds %d bytes that are neither the original nor the formatted bytes (%q…)", len(obs.content), c35Head(obs.content))
+			case obs.mode != cs.perm:
+				what = fmt.Sprintf("target's permission bits are %o, were %o", obs.mode, cs.perm)
+			}
+			var leftovers []string
+			for _, n := range obs.names {
+				b := n[strings.IndexByte(n, '/')+1:]
+				if n == "d/"+cs.name {
+					continue
+				}
+				if strings.HasPrefix(b, "."+cs.name) && c35DigitsRe.MatchString(strings.TrimPrefix(b, "."+cs.name)) {
+					leftovers = append(leftovers, n)
+					continue
+				}
+				what = "unexpected name after the run: " + n
+			}
+			if !rr.killed {
+				// the injection did not fire (no thread made k such calls): this is a completed run
+				if obs.content != newBytes && what == "" {
+					what = "completed run left the original bytes"
+				}
+				if len(leftovers) > 0 {
+					what = fmt.Sprintf("completed run left temporary files behind: %v", leftovers)
+				}
+				res.covered["completed"] = true
+			}
+			if what != "" {
+				fail(fmt.Sprintf("kill on entering %s (after %d calls of the script, dying in %q): %s", inj, pos, kc.killedIn, what))
+			}
+			res.ops = append(res.ops, c35Line{fmt.Sprintf("speckill %s %s %s %s %o %s", perm, c35Digest(cs.old), c35Digest(newBytes), c35Digest(obs.content), obs.mode, obs.kind), "ok"})
+			if !rr.killed {
+				continue
+			}
+			if len(leftovers) > 0 {
+				res.tags = append(res.tags, "leftover-after-kill")
+			}
+			// the killed prefix must be a prefix of the reference script, and the state the model's
+			if pos > scriptLen || strings.Join(kc.ops, ";") != strings.Join(canon.ops[:pos], ";") {
+				res.ops = append(res.ops, c35Line{fmt.Sprintf("script %s %s %s %s %s", cs.cfg, kindWord, perm, umask, hx(newBytes)), "killed run is not a prefix: " + strings.Join(kc.ops, ";")})
+				continue
+			}
+			res.covered[fmt.Sprintf("%d", pos)] = true
+			// state line
+			tgt := hx(obs.content)
+			if obs.content == cs.old {
+				tgt = "old"
+			} else if obs.content == newBytes {
+				tgt = "new"
+			}
+			symNames := []string{"T"}
+			tempState := "-"
+			for _, n := range leftovers {
+				abs := filepath.Join(env.dir, strings.TrimPrefix(n, "d/"))
+				if strings.HasPrefix(n, "tmp/") {
+					abs = filepath.Join(env.tmpdir, strings.TrimPrefix(n, "tmp/"))
+				}
+				sym := kc.sym[filepath.Clean(abs)]
+				symNames = append(symNames, sym)
+				if sym == "X" {
+					tempState = obs.temps[n]
+					switch {
+					case strings.HasPrefix(tempState, hx(newBytes)+":"):
+						tempState = "new" + tempState[len(hx(newBytes)):]
+					case strings.HasPrefix(tempState, "-:"):
+						tempState = "empty" + tempState[1:]
+					}
+				}
+			}
+			sort.Slice(symNames, func(i, j int) bool { return c35Rank(symNames[i]) < c35Rank(symNames[j]) })
+			// the state is parametric in the bytes: short stand-ins keep the lines small
+			res.ops = append(res.ops, c35Line{
+				fmt.Sprintf("prefix %s %s %s %s %s %d", cs.cfg, perm, umask, hx("old"), hx("new"), pos),
+				fmt.Sprintf("target=%s mode=%o names=%s temp=%s", tgt, obs.mode, strings.Join(symNames, ","), tempState)})
+		}
 	}
 	return
 }
@@ -806,6 +838,21 @@ func c35Digest(s string) string {
 	}
 	h := sha256.Sum256([]byte(s))
 	return hx("sha256:" + string(h[:]))
+}
+
+// c35SyscallOf maps a canonical op back to the system call strace sees.
+func c35SyscallOf(op string) string {
+	switch op[:strings.IndexByte(op, ':')] {
+	case "lstat":
+		return "newfstatat"
+	case "openx":
+		return "openat"
+	case "rename", "renamexdev":
+		return "renameat"
+	case "unlink":
+		return "unlinkat"
+	}
+	return op[:strings.IndexByte(op, ':')]
 }
 
 func c35Rank(s string) int {
@@ -922,7 +969,7 @@ func c35(c *Ctx) {
 	for i := 0; i < c.N; i++ {
 		cases = append(cases, c35GenCase(c.R.Fork(fmt.Sprintf("case%d", i)), i, xdev, c.Thorough()))
 	}
-	results := parallelMap(len(cases), 10, func(i int) c35Result {
+	results := parallelMap(len(cases), 4, func(i int) c35Result {
 		var res c35Result
 		if p := safely(func() { res = c35RunCase(c, cases[i]) }); p != "" {
 			res.skipped = "harness-panic: " + p
@@ -931,7 +978,6 @@ func c35(c *Ctx) {
 	})
 	runs := 0
 	coverage := map[string]map[string]bool{} // cfg → positions
-	scriptLens := map[string]int{}
 	for i, res := range results {
 		runs += res.runs
 		cs := cases[i]
@@ -948,7 +994,7 @@ func c35(c *Ctx) {
 		for _, f := range res.fails {
 			c.Fail(f.Witness, f.What)
 		}
-		tags := append(res.tags, "cfg:"+cs.cfg, fmt.Sprintf("perm:%o", cs.perm), fmt.Sprintf("umask:%o", cs.umask), fmt.Sprintf("size<%d", bucket(len(cs.old)/64)*64))
+		tags := append(res.tags, "cfg:"+cs.cfg, fmt.Sprintf("perm:%o", cs.perm), fmt.Sprintf("umask:%o", cs.umask), c35SizeTag(len(cs.old)))
 		c.Case(res.key, res.nontriv, dedupStrings(tags)...)
 		if cs.kind == "reg" && res.nontriv {
 			key := cs.cfg
@@ -958,7 +1004,6 @@ func c35(c *Ctx) {
 			for p := range res.covered {
 				coverage[key][p] = true
 			}
-			_ = scriptLens
 		}
 	}
 	c.Extra["strace_runs"] = runs
@@ -975,6 +1020,15 @@ func c35(c *Ctx) {
 	if !xdev {
 		c.Extra["xdev"] = "skipped: /dev/shm is not a separate writable file system"
 	}
+}
+
+func c35SizeTag(n int) string {
+	for _, b := range []int{1, 64, 1024, 4096, 16384, 65536} {
+		if n <= b {
+			return fmt.Sprintf("size<=%d", b)
+		}
+	}
+	return "size>65536"
 }
 
 func dedupStrings(ss []string) []string {
